@@ -35,8 +35,12 @@ def main():
     if a.replay:
         return replay(mod, a.replay)
     chk = Check(prop, tier, seed, level=getattr(mod, "LEVEL", "proof"))
-    gen_audit(prop)
-    chk.lean = lean_check(prop, tier)
+    if os.environ.get("VERIF_SCRATCH_OUT"):
+        # a re-run of the generation on behalf of the coverage gate: only the cases matter
+        chk.lean = {"obligations": 0, "discharged": 0, "theorems": [], "broken": [], "checker_cmd": "", "build_ok": True, "build_log": ""}
+    else:
+        gen_audit(prop)
+        chk.lean = lean_check(prop, tier)
     try:
         build_harness()
     except BuildError as e:
@@ -54,6 +58,17 @@ def main():
             big_io(chk, 200 if tier == "quick" else 3000, want=mod.BIG_IO)
             chk.rule += ("; plus large inputs (many records, one field of 1 KiB-128 KiB ± 1, the small input pushed across offset 65536/131072, a long "
                          "unterminated tail): the real binary vs the library run in-process with reads of 1-4096 bytes and short writes")
+        if tier == "thorough" and not os.environ.get("VERIF_NO_COVGATE"):
+            # the coverage gate: code of the property's anchor files that the correspondence never executes (tool/covgate.py)
+            import covgate
+            g = covgate.gate(prop, seed)
+            chk.extra["coverage_gate"] = {k: v for k, v in g.items() if k != "new"} | {"new_unexecuted_lines": g.get("new", {})}
+            chk.count("coverage-gate:" + g["status"])
+            if g["status"] == "new-unexecuted-lines":
+                chk.report_tie("K-coverage: lines of the property's anchor files that no generated case executes and that are not in the committed baseline of "
+                               "unexecuted lines — the correspondence between model and code has not run them",
+                               {"component": "K-coverage", "theorem_or_component": "K-coverage", "new_unexecuted_lines": g["new"],
+                                "how_to_read": "file -> text of the lines; typically a new fast path or threshold branch the generators do not reach"})
     except BuildError as e:
         chk.report_tie("a build needed by the check failed", {"theorem_or_component": "build", "log": str(e)})
     sys.exit(chk.finish())
